@@ -2,5 +2,5 @@ SPECIFICATION Spec
 CONSTANTS
   MaxLen = 4
   MaxCap = 5
-INVARIANTS AccessorsAgree RingLive WriteMapOK SetOneOK SortOK DerivedAgree EmitCont
+INVARIANTS AccessorsAgree RingLive WriteMapOK SetOneOK SortOK DerivedAgree DynForwards EmitCont
 CHECK_DEADLOCK FALSE
